@@ -205,6 +205,12 @@ def run_pslq(mp, rec, spec):
         rec.case(ident, False, cls='pslq/%s/none' % spec['kind'])
         if planted is not None:
             env = (n - 1) * math.log2(maxcoeff) <= 0.75 * p - 20
+            # premise of the statement: the relation must actually hold for the inputs AS GIVEN (rounded to p bits) within the
+            # tolerance, with a 64x margin for the library's fixed-point arithmetic; otherwise None is a correct answer
+            res = abs(sum(ci * xi for ci, xi in zip(planted, xs)))
+            if env and res * 64 > tolq * max(abs(v) for v in xs):
+                env = False
+                rec.event('planted relation not within tol on the rounded inputs (premise fails; observation only)')
             if env:
                 rec.event('planted relation inside the envelope: result asserted')
                 rec.violation('C35/pslq/planted-not-found', 'pslq returned None although a small exact relation exists and the precision suffices',
@@ -309,7 +315,11 @@ def run_findpoly(mp, rec, spec):
     if a is None:
         rec.case(ident, False, cls='findpoly/%s/none' % spec['kind'])
         if planted is not None and n >= deg_planted and max(abs(v) for v in planted) <= maxcoeff // 10 \
-                and deg_planted * math.log2(maxcoeff) <= 0.75 * p - 20:
+                and deg_planted * math.log2(maxcoeff) <= 0.75 * p - 20 \
+                and 64 * (abs(sum(v * xq ** j for j, v in enumerate(planted[::-1])))
+                          + sum(abs(v) * j * Fr(2) ** (1 - p) * abs(xq) ** j for j, v in enumerate(planted[::-1]))) \
+                <= tolq * max(1, abs(xq) ** deg_planted):
+            # (last condition: the planted polynomial really vanishes at the p-bit input within tol, 64x margin, powers rounded)
             rec.event('planted relation inside the envelope: result asserted')
             rec.violation('C35/findpoly/planted-not-found', 'findpoly returned None for an algebraic number of degree <= n with small minimal polynomial',
                           spec, observed=None, expected=planted)
